@@ -539,6 +539,113 @@ fn part_pools(c: &Child, thorough: bool, only_chunk: Option<&str>) -> Tally {
         .reduce(Tally::default, Tally::merge)
 }
 
+/// part "lengths": designations of every length 0..=1100 (and around 2^16) through the three routes that build one: the
+/// local time type constructor, a TZ string (plain and quoted name), the designation table of a TZif file
+fn part_lengths(c: &Child, only_chunk: Option<&str>) -> Tally {
+    let id = "lengths:0".to_string();
+    if only_chunk.map_or(false, |o| o != id) {
+        return Tally::default();
+    }
+    c.enter(&id);
+    let mut tl = Tally::default();
+    let mut lens: Vec<usize> = (0..=1100).collect();
+    lens.extend(65_530..=65_545);
+    let small = Block { trans: vec![], types: vec![(0, 0, 0)], chars: b"UTC\0".to_vec(), ..Default::default() };
+    for &l in &lens {
+        let name = vec![b'A'; l];
+        tl.evals += 1;
+        if let Err(m) = guard(|| LocalTimeType::new(3600, false, Some(&name)).map(|_| ())) {
+            c.rec.violation("lengths", json!({"kind":"api_ctor","designation_len":l}), json!("no panic"), json!(m));
+        }
+        let mut s1 = name.clone();
+        s1.extend_from_slice(b"0");
+        try_string(c, &s1, "lengths", &mut tl);
+        let mut s2 = b"<".to_vec();
+        s2.extend_from_slice(&name);
+        s2.extend_from_slice(b">-3DST,M3.2.0,M11.1.0");
+        try_string(c, &s2, "lengths", &mut tl);
+        let mut chars = name.clone();
+        chars.push(0);
+        let b = Block { trans: vec![(0, 0)], types: vec![(3600, 0, 0)], chars, ..Default::default() };
+        try_tzif(c, &mtzif::file(0, &b, None, None), "lengths", &|| json!({"designation_len": l, "version": 1}), &mut tl);
+        try_tzif(c, &mtzif::file(b'2', &small, Some(&b), Some(&s2)), "lengths", &|| json!({"designation_len": l, "version": 2}), &mut tl);
+    }
+    c.leave(&id);
+    tl
+}
+
+/// part "sizes": tables far longer than any real file (the constructors and the parser put no bound on them): a recursion or
+/// a quadratic pass shows as a stack overflow or a stall of the supervised child. Also run by the unoptimised build.
+fn part_sizes(c: &Child, only_chunk: Option<&str>) -> Tally {
+    let mut tl = Tally::default();
+    let cases: [(&str, usize, usize, usize); 6] = [("sizes:transitions_20k", 20_000, 2, 0), ("sizes:transitions_200k", 200_000, 2, 0), ("sizes:transitions_1m", 1_000_000, 3, 0), ("sizes:types_70k", 10, 70_000, 0), ("sizes:leaps_200k", 3, 2, 200_000), ("sizes:all_100k", 100_000, 200, 100_000)];
+    for (id, ntrans, ntypes, nleaps) in cases {
+        if only_chunk.map_or(false, |o| o != id) {
+            continue;
+        }
+        c.enter(id);
+        // the work runs on a thread with the default 2 MiB stack of spawned threads
+        let r = std::thread::Builder::new()
+            .stack_size(2 << 20)
+            .spawn(move || {
+                let types: Vec<LocalTimeType> = (0..ntypes).map(|i| LocalTimeType::new((i % 50_000) as i32 - 25_000, i % 2 == 1, Some(b"ABC")).unwrap()).collect();
+                let trans: Vec<Transition> = (0..ntrans).map(|i| Transition::new(1_000_000 + 3600 * i as i64, i % ntypes)).collect();
+                let leaps: Vec<LeapSecond> = (0..nleaps).map(|i| LeapSecond::new(1000 + i as i64 * (28 * 86400 - 1), i as i32 + 1)).collect();
+                let mut n = 0u64;
+                let r1 = guard(|| {
+                    let z = TimeZoneRef::new(&trans, &types, &leaps, &None).map_err(|e| format!("{e:?}"))?;
+                    let mut acc = 0i64;
+                    for t in [i64::MIN, 0, 1_000_000, 1_000_000 + 1800 * ntrans as i64, i64::MAX] {
+                        if let Ok(l) = z.find_local_time_type(t) {
+                            acc += l.ut_offset() as i64;
+                        }
+                        let _ = DateTime::from_timespec(t, 0, z);
+                    }
+                    let mut buf = [None; 4];
+                    let _ = DateTime::find_n(&mut buf, 1970, 6, 1, 12, 0, 0, 0, z).map(|l| l.count());
+                    Ok::<i64, String>(acc)
+                });
+                n += 1;
+                let r2 = guard(|| TimeZone::new(trans.clone(), types.clone(), leaps.clone(), None).map(|_| ()).map_err(|e| format!("{e:?}")));
+                n += 1;
+                // the same table as a TZif file (transition types are one octet: type indices modulo 256 of the first 256 types)
+                let r3 = if ntypes <= 256 && nleaps <= 200_000 {
+                    let b = Block {
+                        trans: (0..ntrans).map(|i| (1_000_000 + 3600 * i as i64, (i % ntypes) as u8)).collect(),
+                        types: (0..ntypes).map(|i| ((i % 50_000) as i32 - 25_000, (i % 2) as u8, 0u8)).collect(),
+                        chars: b"ABC\0".to_vec(),
+                        leaps: (0..nleaps).map(|i| (1000 + i as i64 * (28 * 86400 - 1), i as i32 + 1)).collect(),
+                        ..Default::default()
+                    };
+                    let small = Block { trans: vec![], types: vec![(0, 0, 0)], chars: b"UTC\0".to_vec(), ..Default::default() };
+                    let f = mtzif::file(b'2', &small, Some(&b), Some(b""));
+                    n += 1;
+                    guard(|| TimeZone::from_tz_data(&f).map(|_| ()).map_err(|e| format!("{e:?}")))
+                } else {
+                    Ok(Ok(()))
+                };
+                (n, r1.map(|x| x.map(|_| ())), r2, r3)
+            })
+            .expect("spawn")
+            .join();
+        match r {
+            Ok((n, r1, r2, r3)) => {
+                tl.evals += n;
+                for (what, r) in [("TimeZoneRef::new + lookups", r1), ("TimeZone::new", r2), ("from_tz_data", r3)] {
+                    match r {
+                        Err(m) => c.rec.violation("sizes", json!({"kind":"size_case","case":id,"what":what}), json!("no panic"), json!(m)),
+                        Ok(Err(e)) => c.rec.violation("sizes", json!({"kind":"size_case","case":id,"what":what}), json!("valid table accepted"), json!(e)),
+                        Ok(Ok(())) => tl.accepted += 1,
+                    }
+                }
+            }
+            Err(_) => c.rec.violation("sizes", json!({"kind":"size_case","case":id,"what":"thread"}), json!("no panic"), json!("worker thread panicked")),
+        }
+        c.leave(id);
+    }
+    tl
+}
+
 /// part "api": products of boundary values through every public constructor, query, projection, getter and Display
 fn part_api(c: &Child, only_chunk: Option<&str>) -> Tally {
     let i64s: Vec<i64> = vec![i64::MIN, i64::MIN + 1, crate::cal::MIN_UNIX_TIME - 1, crate::cal::MIN_UNIX_TIME, -1, 0, 1, 951868800, crate::cal::MAX_UNIX_TIME, crate::cal::MAX_UNIX_TIME + 1, i64::MAX - 1, i64::MAX];
@@ -742,7 +849,9 @@ fn part_api(c: &Child, only_chunk: Option<&str>) -> Tally {
 
 // ------------------------------------------------------------------------------------------ child / parent
 
-const PARTS: [&str; 6] = ["strings", "edits", "mutate", "headers", "pools", "api"];
+const PARTS: [&str; 8] = ["strings", "edits", "mutate", "headers", "pools", "lengths", "sizes", "api"];
+/// parts run by the unoptimised build (debug profile: no inlining or tail-call elimination, every frame is real)
+const UNOPT_PARTS: [&str; 2] = ["sizes", "lengths"];
 
 fn run_part(c: &Child, part: &str, thorough: bool, only_chunk: Option<&str>) -> Tally {
     match part {
@@ -751,6 +860,8 @@ fn run_part(c: &Child, part: &str, thorough: bool, only_chunk: Option<&str>) -> 
         "mutate" => part_mutate(c, thorough, only_chunk),
         "headers" => part_headers(c, only_chunk),
         "pools" => part_pools(c, thorough, only_chunk),
+        "lengths" => part_lengths(c, only_chunk),
+        "sizes" => part_sizes(c, only_chunk),
         "api" => part_api(c, only_chunk),
         _ => Tally::default(),
     }
@@ -838,8 +949,14 @@ pub fn run(args: &Args) -> i32 {
     if let Some(f) = fast {
         builds.push(("unchecked", f));
     }
+    if let Some(u) = args.extra.get("unopt-exe").map(std::path::PathBuf::from).filter(|p| p.exists()) {
+        builds.push(("unoptimised", u));
+    }
     for (bname, bexe) in &builds {
         for part in PARTS {
+            if *bname == "unoptimised" && !UNOPT_PARTS.contains(&part) {
+                continue;
+            }
             let (res, status, inflight) = spawn_part(bexe, part, tier, None, if args.thorough() { 3600 } else { 900 }, 120);
             let label = format!("{part}[{bname}]");
             match (&res, status.starts_with("ok")) {
@@ -866,7 +983,7 @@ pub fn run(args: &Args) -> i32 {
         }
     }
     rec.add(evals, accepted);
-    rec.set_rule("supervised child processes, counting allocator (peak live bytes per parser call <= 8 x input length + 4 KiB; single requests > 1 GiB refused), per-sub-sweep stall watchdog. Inputs: every symbol string up to the bound through 3 decoding paths; one-edit deviations and numeric bombs of 30 core sentences; every truncation and 6 byte values at every offset of every distinct corpus file; hostile header counts singly and in pairs, extreme time fields; boundary-value products through every public constructor/query/getter/Display on zones with extreme transitions and leap records; every accepted input is then used (lookups, searches, projections). Builds: overflow-checks+debug-assertions on, and off. non-trivial = accepted inputs (zones that were then used)");
+    rec.set_rule("supervised child processes, counting allocator (peak live bytes per parser call <= 8 x input length + 4 KiB; single requests > 1 GiB refused), per-sub-sweep stall watchdog. Inputs: every symbol string up to the bound through 3 decoding paths; one-edit deviations and numeric bombs of 30 core sentences; every truncation and 6 byte values at every offset of every distinct corpus file; hostile header counts singly and in pairs, extreme time fields; boundary-value products through every public constructor/query/getter/Display on zones with extreme transitions and leap records; every accepted input is then used (lookups, searches, projections). designations of every length 0..=1100 through three routes; tables of 20 000 .. 1 000 000 transitions, 70 000 types, 200 000 leap records on a 2 MiB stack. Builds: overflow-checks+debug-assertions on, and off, and (sizes / lengths only) an unoptimised build. non-trivial = accepted inputs (zones that were then used)");
     rec.set_exhaustive(true);
     rec.outcome("Err");
     rec.outcome("Ok");
@@ -880,6 +997,12 @@ pub fn replay(case: &Value, args: &Args) -> i32 {
     match case["kind"].as_str().unwrap_or("") {
         "crash" => {
             let part = case["part"].as_str().unwrap_or("");
+            // the crash is replayed with the build that showed it
+            let exe = match case["build"].as_str() {
+                Some("unoptimised") => exe.parent().and_then(|d| d.parent()).map(|t| t.join("unopt").join("tzmc")).filter(|p| p.exists()).unwrap_or(exe.clone()),
+                Some("unchecked") => exe.parent().and_then(|d| d.parent()).map(|t| t.join("fast").join("tzmc")).filter(|p| p.exists()).unwrap_or(exe.clone()),
+                _ => exe.clone(),
+            };
             let mut bad = false;
             for ch in case["chunks"].as_array().cloned().unwrap_or_default() {
                 let ch = ch.as_str().unwrap_or("").to_string();
